@@ -58,7 +58,9 @@ ASSUMPTIONS = [
     'PicklableLock) are covered by the theorems (all fine-grained schedules) but exercised only as macro steps',
     'envelope (ghost flag g_bad of the model stays down): no call enters with an empty context list (an event sent to a '
     'model that is not registered at that moment - candidate KF-C06-3) or with a context object configured twice; '
-    'C06_contexts_held speaks about top-level calls (nested events on another model: candidate KF-C06-2)',
+    'C06_contexts_held speaks about top-level calls (nested events on another model: candidate KF-C06-2) and about '
+    'the context list read when the call starts (an event racing with remove_model + add_model(other contexts) of its '
+    'model is processed under the old contexts: candidate KF-C06-4, only reachable in the removed stream)',
     'add_model / remove_model in generated programs do not raise (valid initial state; remove_model only of models '
     'that no other thread removes, except in the removed stream)',
     'the controller declares a thread stuck if it does not reach its next yield point within %.0f s (a whole case: %.0f s); '
@@ -67,7 +69,8 @@ ASSUMPTIONS = [
 THEOREMS = ['C06_invariant', 'C06_mutex', 'C06_serial', 'C06_serial_in_progress', 'C06_same_calls', 'C06_reentrant',
             'C06_reentrant_never_blocked', 'C06_entry_reads_configuration', 'C06_contexts_fixed', 'C06_contexts_held',
             'C06_contexts_order', 'C06_contexts_released', 'C06_progress', 'C06_macro_runs_are_schedules', 'C06_example',
-            'C06_contexts_held_hier_refuted', 'C06_contexts_held_nested_refuted', 'C06_mutex_unregistered_refuted']
+            'C06_contexts_held_hier_refuted', 'C06_contexts_held_nested_refuted', 'C06_mutex_unregistered_refuted',
+            'C06_contexts_stale_refuted']
 THEOREM_OF_DIFF = 'corr_C06: Lock.step (macro steps) = controlled run of the real locked machine (Props/C06.v)'
 
 
@@ -551,7 +554,23 @@ def serial_reference(case, order):
 CASE_TIMEOUT = 12.0
 
 
+_RETRIES = [0]
+
+
 def impl_lock(case):
+    """a case that ended stuck / hung is re-run (a real deadlock of the library reproduces, a stall of the host does
+    not); only the first few such cases of a process are retried, so a broken library cannot make the check slow"""
+    obs = _impl_lock_guarded(case)
+    tries = 0
+    while isinstance(obs, list) and obs[0] == 1 and obs[1][3] in (7, 8) and tries < 2 and _RETRIES[0] < 6:
+        tries += 1
+        _RETRIES[0] += 1
+        _SLOW[0] = max(0, _SLOW[0] - 1)
+        obs = _impl_lock_guarded(case)
+    return obs
+
+
+def _impl_lock_guarded(case):
     """watchdog: the whole case runs in a daemon thread, so that a deadlock of the library outside the
     scheduled part (construction, serial reference run) cannot hang the check"""
     box = []
@@ -652,6 +671,7 @@ def oracle_clauses(case, obs):
     top = set(c for p in case['progs'] for c in p)
     mach = list(case['mctx'])
     cfgmap = initial_configuration(case)
+    history = {m: [list(v)] for m, v in cfgmap.items()}     # every model_context a model ever had
     cur = None
     span, snapshot, held = [], {}, []
     for x in log:
@@ -676,6 +696,9 @@ def oracle_clauses(case, obs):
                 bad.append('nested_model_contexts_not_entered')
         elif x[0] == 4 and x[3][0] == 0 and x[2] in specs:
             apply_registration(cfgmap, specs[x[2]])
+            for m_, v_ in cfgmap.items():
+                if list(v_) not in history.setdefault(m_, []):
+                    history[m_].append(list(v_))
         if x[0] == 4 and x[2] in top:
             cur = None
             spec = specs[x[2]]
@@ -694,7 +717,13 @@ def oracle_clauses(case, obs):
                 all(k != 0 for k in kinds[first_item:]) and all(k != 1 for k in kinds[:last_item + 1])
             if acq == want and rel == want[::-1] and shape_ok:
                 continue
-            if acq == mach and rel == acq[::-1] and shape_ok and len(want) > len(acq):
+            hier_never_enters = case['cls'] in HIER and acq == mach      # that is KF-C06-1, not a stale read
+            if spec[1] == 0 and shape_ok and rel == acq[::-1] and not hier_never_enters and \
+                    any(acq == mach + old for old in history.get(spec[2], []) if mach + old != want):
+                # the contexts the model had EARLIER (before a remove_model + add_model with another model_context):
+                # LockedEvent.trigger read model_context_map before it waited for the machine contexts
+                bad.append('stale_model_contexts')
+            elif acq == mach and rel == acq[::-1] and shape_ok and len(want) > len(acq):
                 bad.append('model_contexts_not_entered')
             else:
                 bad.append('contexts not held in configured order around call %d: acquired %r released %r, '
@@ -726,7 +755,11 @@ def classify_known(case, model_obs, impl_obs):
        KF-C06-2: LockedMachine, a nested event (triggered from a callback) on a model whose model_context is not
                  held by the outer call; observations agree, only that clause fails.
        KF-C06-3: LockedMachine, the model of the code reports that an event was entered on a model that is not
-                 registered at that moment (after remove_model): it is processed without the machine contexts."""
+                 registered at that moment (after remove_model): it is processed without the machine contexts.
+       KF-C06-4: LockedMachine, an event raced with remove_model + add_model(model_context=other) of its model: it is
+                 processed under the model contexts read BEFORE it waited for the machine contexts (the earlier
+                 registration), not under the ones configured while it is processed; observations agree, only the
+                 clause stale_model_contexts fails."""
     if isinstance(impl_obs, dict):
         return None
     hier = case['cls'] in HIER
@@ -742,6 +775,8 @@ def classify_known(case, model_obs, impl_obs):
         return 'KF-C06-1'
     if not hier and bad == {'nested_model_contexts_not_entered'}:
         return 'KF-C06-2'
+    if not hier and bad == {'stale_model_contexts'}:
+        return 'KF-C06-4'
     return None
 
 
